@@ -1,7 +1,7 @@
 """C06 - declared metadata type is bound to the role by signed content alone."""
 from __future__ import annotations
 
-from sa.terms import C, CallT, P, Sub, SubC, is_lit, show, show_fact, subterms
+from sa.terms import C, CallT, P, Sub, SubC, is_call, is_lit, show, show_fact, subterms
 from sa.walker import State, flatten_events
 
 from . import own_site, CHECKER, VSIG, call_events, flat, fn_site, loc, mentions
@@ -95,6 +95,12 @@ def run(ctx):
         evs = flat(p)
         disc_ok = [ev for ev in evs if ev[0] == "call" and ev[2] == CHECKER and ev[5][0] == "ok" and ev[3] and ev[3][0] != T and mentions(ev[3][0], SubC(U, "signed"))]
         disc_failed = [ev for ev in evs if ev[0] == "call" and ev[2] == CHECKER and ev[5][0] == "raise" and ev[3] and ev[3][0] != T and (mentions(ev[3][0], SubC(U, "signed")) or ev[3][0] == U)]
+        if not disc_ok and not disc_failed:
+            # the same evidence through a predicate built on the checker: its summary carries
+            # ok(checker(x)) on the True side and notok(checker(x)) on the False side
+            for f in st.closure():
+                if f[0] in ("ok", "notok") and is_call(f[1], CHECKER) and f[1][2] and f[1][2][0] != T and (mentions(f[1][2][0], SubC(U, "signed")) or (f[0] == "notok" and f[1][2][0] == U)):
+                    (disc_ok if f[0] == "ok" else disc_failed).append(f)
         compared = st.holds(("eq", name, ty)) or st.holds(("eq", ty, name))
         if disc_ok:
             checked_paths += 1
